@@ -13,7 +13,8 @@ cd "$WT" || exit 2
 git checkout -q -- . ; git clean -fdq -e SEED -e target
 PLACE=$(python3 -c "import json;print(json.load(open('$S/meta.json'))['demo_place'])")
 CMD=$(python3 -c "import json;print(json.load(open('$S/meta.json'))['demo_cmd'])")
-DEMO=$(ls "$S" | grep -v -e patch.diff -e meta.json | head -1)
+DEMO=$(basename "$PLACE")
+[ -f "$S/$DEMO" ] || DEMO=$(ls "$S" | grep -E '\.(rs|py|sh)$' | head -1)
 echo "== demo file $DEMO -> $PLACE ; cmd: $CMD"
 mkdir -p "$(dirname "$WT/$PLACE")"; cp "$S/$DEMO" "$WT/$PLACE"
 echo "== demo WITHOUT patch (expect pass)"
